@@ -243,8 +243,18 @@ Scenario generate(const std::string& prop, uint64_t seed, const std::string& tie
         } else if (hk == 8) { sc.history = {full, full}; }
         else { HistOp nf = full; nf.flags = F_P2P; HistOp ff = full; ff.flags = F_ALL & ~F_P2P; sc.history = {nf, ff}; }
     } else if (prop == "C18") {
-        sc.history.push_back(full);
-        if (r.chance(0.3)) sc.history.push_back(full);
+        const int hk = int(r.below(10));
+        if (hk < 5) sc.history.push_back(full);
+        else if (hk < 7) { sc.history = {full, full}; }
+        else {   // documented three-stage split
+            HistOp a = full, b = full, c = full;
+            a.flags = F_P2M | F_M2M; b.flags = F_M2L | F_P2P; c.flags = F_L2L | F_L2P;
+            sc.history = {a, b, c};
+        }
+        if (sc.history.size() > 1 && r.chance(0.5)) {
+            // the user changes the number of threads between the calls (omp_set_num_threads)
+            for (size_t i = 1; i < sc.history.size(); ++i) if (r.chance(0.7)) sc.history[i].threads = 1 + int(r.below(16));
+        }
     } else if (prop == "C13") {
         // cycles of  move -> rebuild -> (execute)
         if (r.chance(0.5)) sc.history.push_back(full);
